@@ -18,6 +18,8 @@ pub struct Tokenizer<'a> {
     pub chars: Iter<'a, u8>,
     in_header: bool,
     in_common: bool,
+    /// Previous token was a data element, i.e. a data separator may follow
+    after_data: bool,
 }
 
 impl<'a> Tokenizer<'a> {
@@ -36,6 +38,7 @@ impl<'a> Tokenizer<'a> {
             chars: iter,
             in_header: true,
             in_common: false,
+            after_data: false,
         }
     }
 
@@ -419,6 +422,9 @@ impl<'a> Iterator for Tokenizer<'a> {
                 self.chars.next();
                 if self.in_header {
                     Some(Err(ErrorCode::HeaderSeparatorError))
+                } else if !self.after_data {
+                    // A data separator must follow a data element
+                    Some(Err(ErrorCode::SyntaxError))
                 } else {
                     util::skip_ws(&mut self.chars);
                     if let Some(c) = self.chars.clone().next() {
@@ -491,6 +497,7 @@ impl<'a> Iterator for Tokenizer<'a> {
         };
         //extern crate std;
         //std::dbg!(ret);
+        self.after_data = matches!(&ret, Some(Ok(tok)) if tok.is_data());
         ret
     }
 }
